@@ -50,6 +50,7 @@ class Buggify:
         self.fallback_taken = 0
         self.armed_calls = 0
         self.exhausted_in_worker = 0
+        self.natural_fail = collections.Counter()
 
     def _should_fail(self, name, p):
         prob = self.arm.get(name)
@@ -81,7 +82,11 @@ class Buggify:
                 if bug._should_fail(name, p):
                     bug.fired[name] += 1
                     raise SolutionError(f"buggify: {name} failed")
-                return real(self, p, tangent, psi=psi, width=width, atol=atol)
+                try:
+                    return real(self, p, tangent, psi=psi, width=width, atol=atol)
+                except SolutionError:
+                    bug.natural_fail[name] += 1
+                    raise
 
             wrapper.__name__ = attr
             setattr(PsiContour, attr, wrapper)
@@ -114,7 +119,8 @@ class Buggify:
     def counters(self):
         return {"calls": dict(self.calls), "fired": dict(self.fired),
                 "exhausted": self.exhausted, "fallback_taken": self.fallback_taken,
-                "exhausted_in_worker": self.exhausted_in_worker}
+                "exhausted_in_worker": self.exhausted_in_worker,
+                "natural_fail": dict(self.natural_fail)}
 
 
 class ClockSim:
@@ -141,6 +147,11 @@ class ClockSim:
         self.total = 0.0
         self.slow_prob = float(plan.get("slow_prob", 0.0))
         self.slow_factor = float(plan.get("slow_factor", 1.0e7))
+        # one ODE right-hand-side evaluation (three psi evaluations) costs ~5e-5 s on the
+        # reference machine: a refinement that runs away inside solve_ivp passes a 10 s
+        # deadline after ~2e5 evaluations, as it would under the real func_timeout
+        self.rhs_cost = float(plan.get("rhs_cost_s", 5.0e-5))
+        self.rhs_evals = 0
 
     def _func_timeout(self, timeout, func, args=(), kwargs=None):
         kwargs = kwargs or {}
@@ -170,27 +181,56 @@ class ClockSim:
                 self.fired_in_worker += 1
             raise FunctionTimedOut("", timeout, func, args, kwargs)
 
+    def _charge_rhs(self):
+        from func_timeout.exceptions import FunctionTimedOut
+
+        tid = threading.get_ident()
+        st = self.stack[tid]
+        self.rhs_evals += 1
+        if not st:
+            return
+        dt = self.rhs_cost * self.slowness
+        self.clock[tid] += dt
+        self.total += dt
+        if self.clock[tid] > st[-1][0]:
+            _, timeout, func, args, kwargs = st[-1]
+            self.fired += 1
+            if threading.current_thread().name.startswith("procsim-W"):
+                self.fired_in_worker += 1
+            raise FunctionTimedOut("", timeout, func, args, kwargs)
+
     @contextlib.contextmanager
     def installed(self):
         import func_timeout
 
+        import hypnotoad.core.equilibrium as eqmod
         from hypnotoad.core.equilibrium import PsiContour
 
         real_ft = func_timeout.func_timeout
         real_rp = PsiContour.refinePoint
+        real_ivp = eqmod.solve_ivp
         clk = self
 
         def refine_point(self, p, tangent, **kw):
             clk._charge(p)
             return real_rp(self, p, tangent, **kw)
 
+        def solve_ivp(fun, *a, **kw):
+            def charged(*fa, **fkw):
+                clk._charge_rhs()
+                return fun(*fa, **fkw)
+
+            return real_ivp(charged, *a, **kw)
+
         func_timeout.func_timeout = self._func_timeout
         PsiContour.refinePoint = refine_point
+        eqmod.solve_ivp = solve_ivp
         try:
             yield self
         finally:
             func_timeout.func_timeout = real_ft
             PsiContour.refinePoint = real_rp
+            eqmod.solve_ivp = real_ivp
 
     def counters(self):
         return {"timeouts_started": self.timeouts_started, "timeout_fired": self.fired,
@@ -199,14 +239,12 @@ class ClockSim:
 
 @contextlib.contextmanager
 def inline_timeout():
-    """func_timeout without the helper thread and without a deadline: used wherever the
-    timeout is not the subject, so that no real thread or wall clock takes part."""
-    import func_timeout
-
-    real = func_timeout.func_timeout
-    func_timeout.func_timeout = lambda timeout, func, args=(), kwargs=None: func(
-        *args, **(kwargs or {}))
-    try:
-        yield
-    finally:
-        func_timeout.func_timeout = real
+    """The default for every run in which the timeout is not the subject: func_timeout
+    without the helper thread and without the wall clock, on a simulated clock running at
+    the reference machine's speed (slowness 1).  The deadline still exists, so a
+    refinement that runs away (garbage contour, hopeless settings) ends in
+    FunctionTimedOut after refine_timeout simulated seconds exactly as in the real system
+    -- deterministically, and whatever the load on the machine running the check."""
+    clk = ClockSim({"slowness": 1.0, "key": 0})
+    with clk.installed():
+        yield clk
